@@ -311,6 +311,33 @@ func byteCorpus(x *mon.Ctx) []bcase {
 			}
 		}
 	}
+	// content fields at their extremes: every 2-byte window of the fixed-layout part of a valid quote (header, body, signature,
+	// attestation key, QE report, its signature) that is not a type / size field, and every byte of it, filled with ones and
+	// with zeros — contents are the verifier's business, the parser takes the largest value of every field like any other
+	{
+		v := valid[0]
+		const qeReportEnd = 0x302 + 384 + 64
+		structural := func(o int) bool { return o < 8 || (o >= 632 && o < 636) || (o >= 764 && o < 770) }
+		for o := 8; o+2 <= qeReportEnd && o+2 <= len(v); o += 2 {
+			if structural(o) {
+				continue
+			}
+			for _, fill := range []byte{0xff, 0x00} {
+				b := append([]byte(nil), v...)
+				b[o], b[o+1] = fill, fill
+				add("content-field-extremes", fmt.Sprintf("offset=%#x/2-bytes-of-%#02x", o, fill), b)
+			}
+		}
+		for _, fill := range []byte{0xff, 0x00, 0x80, 0x7f} {
+			b := append([]byte(nil), v...)
+			for o := 8; o < qeReportEnd && o < len(b); o++ {
+				if !structural(o) {
+					b[o] = fill
+				}
+			}
+			add("content-field-extremes", fmt.Sprintf("every-content-byte=%#02x", fill), b)
+		}
+	}
 	// well-formed unsigned pattern quotes with extreme lengths
 	for i, sh := range [][3]int{{0, 0, 0}, {1, 1, 1}, {65535, 0, 0}, {0, 8192, 0}, {65535, 8192, 3000}, {32, 3000, 64}, {2, 7, 0},
 		// certificate data whose length needs more than 16 bits (its size field has 32), alone and together with maximal auth data
